@@ -175,6 +175,13 @@ def run_one(tape: Any, cfg: Dict[str, Any], forbid: FrozenSet[str] = frozenset()
         total = sum(len(r) for r, _ in reqs)
         floor = scen.unit_floor(total, 400)
         opts = scen.proxy_opts(tape, floor)
+        if coalesced:
+            # everything must reach the proxy in one read: a coalesced stream cut by a small receive buffer is the known
+            # pipelining defect of C04 (the tail is parsed from its middle and forwarded as a mangled request), which would
+            # hide what this scenario is for
+            # (runs that keep a small buffer carry the feature coalesced_split_read: known finding, see known_findings.json)
+            if 'client_recvbuf_size' in opts and not g.note('coalesced_split_read'):
+                opts.pop('client_recvbuf_size', None)
         flags = make_flags(threadless=True, local_executor=1, timeout=3600, plugins=plugins,
                            basic_auth=(user + b':' + pw).decode(), **opts)
         h = L1(w, flags)
@@ -215,7 +222,7 @@ def run_one(tape: Any, cfg: Dict[str, Any], forbid: FrozenSet[str] = frozenset()
         if coalesced:
             w.probe('coalesced_followups')
         cl = Peer(w, 'client', script, read_mode='chunky')
-        cl.connect_fn = h.connector()
+        cl.connect_fn = h.connector(cap_to_proxy=max(65536, 2 * total))
         w.settle(1.5, 300.0)
         scen.executor_check(w, h)
 
